@@ -23,9 +23,13 @@ Sx(o, a, p) == [op |-> o, a |-> a, p |-> p]
 Bi(o, a, b) == [op |-> o, a |-> a, b |-> b]
 \* "FGROUP" among the leaf kinds switches on the field group  w:( E )  as one more unary operator
 T0 == {Lf(k) : k \in LeafKinds \ {"FGROUP"}}
-\* a single term in the group is the parenthesised field value (FieldVal) and an OR chain of plain values is a value list:
-\* the group holds any other tree
-GroupOk(a) == a.op \notin {"LEAF","OR"}
+\* a single term in the group is the parenthesised field value (FieldVal) and an OR chain of plain values is a value list
+\* (FieldList): the group holds any other tree - in particular an OR with a fielded member, w:(w OR w:w)
+BareLit == {"bare","bareint","barenint","barefloat","barequoted","baresame"}
+RECURSIVE OrOfBare(_)
+OrOfBare(a) == \/ a.op = "LEAF" /\ a.k \in BareLit
+               \/ a.op = "OR" /\ OrOfBare(a.a) /\ OrOfBare(a.b)
+GroupOk(a) == a.op # "LEAF" /\ ~OrOfBare(a)
 \* Suffix = FALSE leaves out ~ and ^ (the SQL renderers reject them by design).
 \* (The group term is a UNION on purpose: with a subset expression {x \in S : GroupOk(x)} anywhere in this definition TLC no
 \* longer evaluates the constant AllTrees once but again at every use, which made the generator fifty times slower.)
